@@ -102,6 +102,15 @@ fn remove_var(case: &Case, k: usize) -> Option<Case> {
 
 /// Structural validity: indices in range at the time of the op, literals over Booleans, the
 /// documented preconditions (division by a domain excluding 0), non-empty arrays.
+/// Structural validity of one constraint over the given variables.
+pub fn valid_con(c: &Con, vars: &[VarDecl]) -> bool {
+    let probe = Case {
+        ops: vars.iter().map(|v| Op::AddVar(v.clone())).chain(std::iter::once(Op::Post(c.clone()))).collect(),
+        ..crate::gen::base_case("C00", "probe", crate::sched::Knobs::default(), BrancherSpec::Default, vec![], crate::gen::default_checks())
+    };
+    valid(&probe)
+}
+
 pub fn valid(case: &Case) -> bool {
     let mut vars: Vec<VarDecl> = vec![];
     fn con_ok(c: &Con, vars: &[VarDecl]) -> bool {
